@@ -386,6 +386,33 @@ var errCallback = errors.New("verif: callback failed")
 
 func kvsDesc(kvs []kv) string { return canon(kvs) }
 
+// sameStreams: two extractions of a collection agree (points, values, start and time).
+func sameStreams(a, b []streamObs) bool {
+	if len(a) != len(b) {
+		return false
+	}
+	for i := range a {
+		if a[i].reported != b[i].reported || len(a[i].points) != len(b[i].points) {
+			return false
+		}
+		if a[i].reported && (!a[i].start.Equal(b[i].start) || !a[i].time.Equal(b[i].time)) {
+			return false
+		}
+		for k, va := range a[i].points {
+			vb, ok := b[i].points[k]
+			if !ok || len(va) != len(vb) {
+				return false
+			}
+			for j := range va {
+				if va[j] != vb[j] {
+					return false
+				}
+			}
+		}
+	}
+	return true
+}
+
 func allDelta(sdk.InstrumentKind) metricdata.Temporality { return metricdata.DeltaTemporality }
 func allCum(sdk.InstrumentKind) metricdata.Temporality   { return metricdata.CumulativeTemporality }
 
@@ -776,6 +803,12 @@ func (rn *runner) history(seedDesc string, nOps int) {
 		err     bool
 	}
 	var dObs, cObs []readerObs
+	type retainedRM struct {
+		rm   *metricdata.ResourceMetrics
+		temp metricdata.Temporality
+		snap []streamObs
+	}
+	var retained []retainedRM
 	reuse := r.Bool()
 	var reusedD, reusedC metricdata.ResourceMetrics
 	var dErrs, cErrs []bool // one entry per Collect call of that reader (also the ones that returned no data)
@@ -928,8 +961,14 @@ func (rn *runner) history(seedDesc string, nOps int) {
 				}
 				if delta {
 					dObs = append(dObs, readerObs{streams: rn.extract(rmp, metricdata.DeltaTemporality, d), err: e != nil})
+					if !reuse {
+						retained = append(retained, retainedRM{rm: rmp, temp: metricdata.DeltaTemporality, snap: dObs[len(dObs)-1].streams})
+					}
 				} else {
 					cObs = append(cObs, readerObs{streams: rn.extract(rmp, metricdata.CumulativeTemporality, d), err: e != nil})
+					if !reuse {
+						retained = append(retained, retainedRM{rm: rmp, temp: metricdata.CumulativeTemporality, snap: cObs[len(cObs)-1].streams})
+					}
 				}
 				return true
 			}
@@ -953,6 +992,18 @@ func (rn *runner) history(seedDesc string, nOps int) {
 			continue
 		}
 	}
+
+	// ---- collected data must not change afterwards: every ResourceMetrics handed out (fresh destinations)
+	// was kept; re-read them now, after all later measurements and collections, and compare with the
+	// copy taken right after their Collect ----
+	for _, rt := range retained {
+		again := rn.extract(rt.rm, rt.temp, map[string]any{"history": seedDesc, "recheck": true})
+		if !sameStreams(again, rt.snap) {
+			w.Violation("a collected data point changed after a later measurement/collection", seedDesc)
+			break
+		}
+	}
+	w.Tally(fmt.Sprintf("retained collections re-checked=%d", min(len(retained), 40)/10*10))
 
 	// ---- time ranks: instants are only compared by order and equality ----
 	var instants []time.Time
@@ -1157,6 +1208,12 @@ func (rn *runner) expoHistory(desc string) {
 	span := r.Range(0, 2) // the exponent window [e0, e0+span] widens as the cycles go by
 	nCycles := r.Range(3, 10)
 	var measT, obsT, descC []string
+	type keptExpo struct {
+		rm   *metricdata.ResourceMetrics
+		temp metricdata.Temporality
+		snap []ePoint
+	}
+	var kept []keptExpo
 	for c := 0; c < nCycles; c++ {
 		counts := map[uint64]uint64{}
 		flags := map[uint64]uint64{}
@@ -1240,6 +1297,7 @@ func (rn *runner) expoHistory(desc string) {
 			return
 		}
 		dp, cp := extract(&rmD, metricdata.DeltaTemporality), extract(&rmC, metricdata.CumulativeTemporality)
+		kept = append(kept, keptExpo{&rmD, metricdata.DeltaTemporality, dp}, keptExpo{&rmC, metricdata.CumulativeTemporality, cp})
 		var ks []uint64
 		for k := range counts {
 			ks = append(ks, k)
@@ -1267,6 +1325,18 @@ func (rn *runner) expoHistory(desc string) {
 		}
 	}
 	w.Tally(fmt.Sprintf("expo:maxsize=%d", maxSize))
+	// the points handed out in earlier cycles must still be what they were
+	for _, kp := range kept {
+		again := extract(kp.rm, kp.temp)
+		same := len(again) == len(kp.snap)
+		for i := 0; same && i < len(again); i++ {
+			same = again[i].coq() == kp.snap[i].coq()
+		}
+		if !same {
+			w.Violation("a collected data point changed after a later measurement/collection (exponential histogram)", desc)
+			break
+		}
+	}
 	w.Add(vgen.App("CExpo", vgen.N(uint64(maxSize)), vgen.List(measT), vgen.List(obsT)),
 		map[string]any{"history": desc, "max_size": maxSize, "max_scale": maxScale, "float": float, "cycles": descC}, "expo-rescaling", nCycles >= 2)
 }
